@@ -16,6 +16,15 @@ pub struct Violation {
     pub detail: J,
 }
 
+/// Bucket of a violation summary: the panic location if there is one, else the text up to the
+/// first ':' (the kind of failure), so that stored examples cover distinct failure kinds.
+fn bucket(summary: &str) -> String {
+    if let Some(p) = summary.rfind(" @ ") {
+        return summary[p..].chars().take(80).collect();
+    }
+    summary.split(':').next().unwrap_or("").chars().take(60).collect()
+}
+
 #[derive(Default, Debug)]
 pub struct Acc {
     pub counters: BTreeMap<String, u64>,
@@ -87,10 +96,12 @@ impl Acc {
         if let Some(s) = sig {
             *self.sig_hits.entry(s.to_string()).or_insert(0) += 1;
         }
-        // keep a bounded number, but at least one per distinct signature
-        let same_sig = self.violations.iter().filter(|v| v.sig.as_deref() == sig).count();
-        if same_sig < self.max_violations {
-            self.violations.push(Violation { case, sig: sig.map(|s| s.to_string()), summary: summary.into(), detail });
+        // keep a bounded number per (signature, bucket); the bucket diversifies the stored examples
+        let summary: String = summary.into();
+        let b = bucket(&summary);
+        let same = self.violations.iter().filter(|v| v.sig.as_deref() == sig && bucket(&v.summary) == b).count();
+        if same < 3 && self.violations.len() < 400 {
+            self.violations.push(Violation { case, sig: sig.map(|s| s.to_string()), summary, detail });
         }
     }
 
@@ -123,14 +134,14 @@ impl Acc {
         self.violation_count += other.violation_count;
         self.violations.extend(other.violations);
         self.violations.sort_by_key(|v| v.case);
-        // bound per signature
-        let mut per: BTreeMap<Option<String>, usize> = BTreeMap::new();
-        let maxv = self.max_violations;
+        // bound per (signature, bucket)
+        let mut per: BTreeMap<(Option<String>, String), usize> = BTreeMap::new();
         self.violations.retain(|v| {
-            let e = per.entry(v.sig.clone()).or_insert(0);
+            let e = per.entry((v.sig.clone(), bucket(&v.summary))).or_insert(0);
             *e += 1;
-            *e <= maxv
+            *e <= 3
         });
+        self.violations.truncate(400);
         for w in other.inconclusive {
             self.inconclusive(w);
         }
